@@ -316,6 +316,10 @@ fn family_sig(optname: &str, fam: &Family, clause: &str) -> String {
         if math_code && contains(&both, b"\\$") {
             return "math_dollars/fragment-contains-backslash-dollar".into();
         }
+        if math_code && contains(&both, b"[^") {
+            // footnotes are on in the all-extensions option sets only
+            return "footnotes/fragment-contains-bracket-caret".into();
+        }
         if star_runs_sum_to_multiple_of_three(&both) {
             return "emphasis/star-runs-of-two-lengths-summing-to-a-multiple-of-3".into();
         }
